@@ -60,6 +60,13 @@ def ls_case_lit(cid, l):
             f"{qm(X)} {qm(P)}))")
 
 
+def norm_case_lit(cid, n):
+    facs = "[" + "; ".join(qm(f) for f in n["facs"]) + "]"
+    facs2 = "[" + "; ".join(qm(f) for f in n["facs_impl"]) + "]"
+    tape = "[" + "; ".join(f"({qv(a)}, {qv(b)})" for a, b in n["tape"]) + "]"
+    return (f"({cid}%nat, Norm (mkN {qt(n['X'])} {qv(n['w'])} {facs} {n['rank']}%nat {tape} {qv(n['w_impl'])} {facs2}))")
+
+
 # ----------------------------------------------------------------------------- generators
 def np_rng(rng):
     return np.random.RandomState(rng.randrange(2 ** 31 - 1))
@@ -250,16 +257,16 @@ def hals_objective(G, B, V, l1, l2):
 
 
 # ----------------------------------------------------------------------------- the runs
-BUDGET = {"quick": dict(cp=84, hals=36, ls=32), "thorough": dict(cp=480, hals=220, ls=200)}
+BUDGET = {"quick": dict(cp=84, hals=36, ls=32, norm=12), "thorough": dict(cp=480, hals=220, ls=200, norm=80)}
 
 
 class Ctx:
     def __init__(self, chk, rng, tier):
         self.chk, self.rng, self.tier = chk, rng, tier
-        self.cands = {"cp": [], "hals": [], "ls": []}     # candidates for the exact (Coq) block check
+        self.cands = {"cp": [], "hals": [], "ls": [], "norm": []}     # candidates for the exact (Coq) block check
         self.cases, self.meta = [], []
         self.skipped_illcond = 0
-        self.n_cp, self.n_hals, self.n_ls = 0, 0, 0
+        self.n_cp, self.n_hals, self.n_ls, self.n_norm = 0, 0, 0, 0
         self.raised, self.judged, self.attempts, self.raised_other = {}, {}, {}, {}
         self.py_blocks = 0
         self.mismatch_notes = 0
@@ -280,7 +287,7 @@ class Ctx:
 
     def select(self):
         lits = {"cp": cp_case_lit, "hals": hals_case_lit, "ls": ls_case_lit}
-        for kind in ("cp", "hals", "ls"):
+        for kind in ("cp", "hals", "ls", "norm"):
             groups = {}
             for c in self.cands[kind]:
                 groups.setdefault(c[0], []).append(c)
@@ -299,6 +306,7 @@ class Ctx:
             if kind == "cp": self.n_cp = len(picked)
             if kind == "hals": self.n_hals = len(picked)
             if kind == "ls": self.n_ls = len(picked)
+            if kind == "norm": self.n_norm = len(picked)
 
 
 def attempt(ctx, entry):
@@ -429,6 +437,35 @@ def check_p2_tape(ctx, entry, inputs, cap):
                 return
 
 
+def add_norm_case(ctx, entry, inputs, X, w, facs, zero_col=False):
+    """cp_normalize of the implementation on the state (w, facs) vs the model's cp_normalize_m (norms as answer tape);
+    float predicate: the normalised CP tensor represents the same tensor"""
+    import tensorly as tl
+    rank = facs[0].shape[1]
+    w = np.ones(rank) if w is None else np.array(w, dtype=float)
+    facs = [np.array(f, dtype=float) for f in facs]
+    if zero_col and rank >= 2:
+        facs[len(facs) // 2][:, rank - 1] = 0.0
+    out = C.call_impl(tl.cp_tensor.cp_normalize, tl.cp_tensor.CPTensor((w.copy(), [f.copy() for f in facs])))
+    if out[0] != "ok":
+        raised(ctx, "tensorly.cp_tensor.cp_normalize", out[1]); return
+    w2, f2 = out[1]
+    w2 = np.array(w2, dtype=float); f2 = [np.array(f, dtype=float) for f in f2]
+    before, after = cp_full(w, facs), cp_full(w2, f2)
+    ctx.py_blocks += 1
+    if not np.allclose(before, after, rtol=1e-9, atol=1e-12 * (1.0 + float(np.max(np.abs(before))))):
+        ctx.chk.finding(entry, dict(inputs, state_w=w, state_facs=facs), "cp_normalize changed the represented tensor (so the objective after the normalisation "
+                        "is not the objective after the sweep)", "C07_cp_normalize_invariant", observed=float(np.max(np.abs(before - after))), expected=0.0)
+    tape = []
+    for j, f in enumerate(facs):
+        g = f * w[None, :] if j == 0 else f
+        sc = np.linalg.norm(g, axis=0)
+        tape.append((sc, np.where(sc == 0, 1.0, sc)))
+    if X.size <= 40 and rank <= 3:
+        ctx.add_case("norm", norm_case_lit, dict(X=X, w=w, facs=facs, rank=rank, tape=tape, w_impl=w2, facs_impl=f2),
+                     dict(entry=entry, inputs=dict(inputs, kind="cp_normalize" + ("+zero column" if zero_col else ""))))
+
+
 def cp_objective_rel(X, w, facs, lam=0.0):
     rank = facs[0].shape[1]
     w = np.ones(rank) if w is None else np.asarray(w, dtype=float)
@@ -497,6 +534,10 @@ def run_parafac(ctx, n_runs):
             objs = [cp_objective_rel(X, wts, fs, lam) for (wts, fs) in iterates]
             history_check(ctx, entry, inputs, objs, what="objective recomputed from callback iterates")
         add_cp_blocks(ctx, entry, inputs, cap, lam, max_blocks=4 if ctx.tier == "quick" else 6)
+        if "normalize" in variant and len(iterates) >= 2:
+            # the state the implementation hands to cp_normalize after a sweep: previous weights, freshly updated factors
+            wts, fs = iterates[rng.randrange(1, len(iterates))]
+            add_norm_case(ctx, entry, inputs, X, wts, fs, zero_col=(it % 5 == 1))
         if it < 3:
             chk.sample(dict(algorithm="parafac", variant=variant, shape=list(shape), rank=rank, errors=[float(e) for e in errs][:6], blocks=len(cap.blocks)))
 
@@ -953,7 +994,7 @@ def run(chk):
     chk.checker_cmds.append("coqc (vm_compute, Qops) on generated build/cases/C07/*.v: Corr.C07.failing")
     chk.cov["traces_validated_against_impl"] = n_eval
     chk.cov["exhaustive"] = False
-    chk.cov["block_cases"] = dict(cp_blocks=ctx.n_cp, hals_chains=ctx.n_hals, ls_blocks=ctx.n_ls, float_block_predicates=ctx.py_blocks,
+    chk.cov["block_cases"] = dict(cp_blocks=ctx.n_cp, hals_chains=ctx.n_hals, ls_blocks=ctx.n_ls, normalisations=ctx.n_norm, float_block_predicates=ctx.py_blocks,
                                   candidates={k: len(v) for k, v in ctx.cands.items()})
     chk.cov["skipped_ill_conditioned"] = ctx.skipped_illcond
     chk.cov["rule"] = ("seeded well-conditioned problems (low rank + noise; dense / nearly collinear ones for the line search), orders 2-4, rank 1-3: every algorithm "
@@ -977,11 +1018,11 @@ def run(chk):
         chk.disagreement(f"corr:C07 {kind} block (Model/Descent.v vs {descr['entry']})", dict(kind=kind, **descr))
         # turn the disagreement into a failing input: the run whose captured block disagrees with the model
         inp = dict(descr["inputs"]); inp["block_kind"] = kind
-        for k in ("G", "B", "A", "Y", "X", "M", "xnew", "w", "facs", "iterates", "mode", "lam", "prev", "l1", "l2", "eps"):
+        for k in ("G", "B", "A", "Y", "X", "M", "xnew", "w", "facs", "iterates", "mode", "lam", "prev", "l1", "l2", "eps", "tape", "w_impl", "facs_impl"):
             if k in payload and k not in inp:
                 inp["block_" + k] = payload[k]
         chk.finding(descr["entry"], inp, f"{kind} block: the implementation's block state disagrees with the exact model block "
-                    "(system mismatch, solve certificate violated, next iterate differs or exact objective increases)", "C07_block_refinement")
+                    "(system mismatch, solve certificate violated, next iterate / normalised state differs or exact objective increases)", "C07_block_refinement")
     chk.assumptions = ["block problems well conditioned (condition number of every solved system <= 1e4 on the generated inputs; others skipped and counted)",
                        "tl.solve / tl.lstsq / SVD are oracles: their answers are data, checked against the certificate of the model's system",
                        "HOOI and PARAFAC2 projections: reported and recomputed histories are judged; Ky Fan / Procrustes optimality are named hypotheses of the _partial theorems"]
